@@ -127,6 +127,15 @@ def run(rep, tier, seed, replay=None):
                     variants.append((f"cut-after-{min(j, 3)}", c2))
             mc, what = netcases.mutate(base, rnd)
             variants.append((what, mc))
+            if fam in ("mcauto", "mcjava") and base.script and base.script[0] not in ("X", []) and base.script[0][0]:
+                # the Java status exchange completes, but what it carries is not a JSON document (framing intact): whatever
+                # the paths make of it — an error, or the next variant's answer — they must make the same of it
+                d0 = base.script[0][0]
+                j = d0.rfind(b"}")
+                if j > 0:
+                    c3 = base.clone()
+                    c3.script[0][0] = d0[:j] + b"]" + d0[j + 1:]
+                    variants.append(("java-not-json", c3))
             for what, c in variants:
                 for port in ("-", str(rnd.choice([27015, 1, 65535, d["port"]]))):
                     k += 1
